@@ -13,3 +13,6 @@ LP/CertSound.vos LP/CertSound.vok LP/CertSound.required_vos: LP/CertSound.v LP/C
 LP/User.vo LP/User.glob LP/User.v.beautified LP/User.required_vo: LP/User.v LP/ILP.vo
 LP/User.vio: LP/User.v LP/ILP.vio
 LP/User.vos LP/User.vok LP/User.required_vos: LP/User.v LP/ILP.vos
+LP/OptTest.vo LP/OptTest.glob LP/OptTest.v.beautified LP/OptTest.required_vo: LP/OptTest.v LP/Cert.vo
+LP/OptTest.vio: LP/OptTest.v LP/Cert.vio
+LP/OptTest.vos LP/OptTest.vok LP/OptTest.required_vos: LP/OptTest.v LP/Cert.vos
